@@ -20,7 +20,7 @@ from typing import Any, Callable
 
 from kv import canon, clock, coqio as cq, fakeapi as fa, framework as fw, vloop
 
-RULE_FN = ('function level: bounded-exhaustive product patch shape {body, status, both, fns only, all} x status subresource {yes,no} x '
+RULE_FN = ('function level: bounded-exhaustive product patch shape {body, status, both, status: None, body + status: None, fns only, all} x status subresource {yes,no} x '
            'fault plan {none; request i in 0..3 answered 404/422/409/200-with-empty-body} x foreign write {none; before request '
            '0..3: annotation edit / finalizer added / finalizer removed / delete / delete-and-recreate} on objects carrying foreign '
            'finalizers around kopf\'s own x fns {block, allow, idempotent list edit, status edit, block+status, '
@@ -103,6 +103,8 @@ SHAPES: dict[str, tuple[dict, bool]] = {   # merge-patch content, has fns
     'body': ({'metadata': {'annotations': {'k': 'v', 'keep': None}}, 'spec': {'b': 2}}, False),
     'status': ({'status': {'s': 1, 'old': None}}, False),
     'both': ({'metadata': {'labels': {'l': 'w'}}, 'status': {'s': 1, 'nested': {'p': [1, 2]}}}, False),
+    'status-null': ({'status': None}, False),                                           # removes the whole status (F801, fixed in 0a8dc55)
+    'body+status-null': ({'metadata': {'labels': {'l': 'w'}}, 'spec': {'b': 2}, 'status': None}, False),
     'fns': ({}, True),
     'all': ({'metadata': {'annotations': {'k': 'v'}}, 'spec': {'b': 2}, 'status': {'s': 1, 'old': None}}, True),
 }
@@ -647,27 +649,6 @@ def next_cycle(o: dict, remaining: Any) -> dict | None:
     return api.get(kind, NS, NAME)
 
 
-def match_f801(f: dict) -> bool:
-    """F801: `status: None` in the merge-patch of a resource with a status subresource is popped and sent nowhere
-    (and therefore the status is still on the server afterwards); everything else of the patch was sent."""
-    c = f.get('case') or {}
-    obs = f.get('observed') if isinstance(f.get('observed'), dict) else {}
-    patch, sent = obs.get('patch'), obs.get('sent')
-    if not (f['sig'] in ('merge-part-dropped', 'incomplete') and c.get('subresource') is True and isinstance(patch, dict)
-            and 'status' in patch and patch['status'] is None and isinstance(sent, dict)
-            and sent == {k: v for k, v in patch.items() if k != 'status'}):
-        return False
-    if f['sig'] == 'incomplete':
-        # the surviving status is the only difference (transformations may have edited the status on both sides)
-        server, expected = copy.deepcopy(obs.get('server')), copy.deepcopy(obs.get('expected'))
-        if not isinstance(server, dict) or not isinstance(expected, dict) or 'status' not in server:
-            return False
-        server.pop('status')
-        expected.pop('status', None)
-        return server == expected
-    return True
-
-
 # ---------------------------------------------------------------------------------------------
 # application.apply
 # ---------------------------------------------------------------------------------------------
@@ -938,7 +919,6 @@ def apply_layer(ctx: fw.Ctx, env: 'Env', seen_terms: set[str], tie: str = 'apply
 
 def differential(ctx: fw.Ctx) -> None:
     ctx.matchers = dict(ctx.matchers)
-    ctx.matchers.setdefault('F801', match_f801)
     ctx.notes.append(RULE_FN)
     ok, logtxt = fw.build_models(['Model/PatchObj.v', 'Model/Causes.v'])
     if not ok:
@@ -988,7 +968,6 @@ def differential(ctx: fw.Ctx) -> None:
 def replay(ctx: fw.Ctx, body: dict) -> bool:
     """Re-run one function-level case (the `case` of a replay file) through the monitors."""
     ctx.matchers = dict(ctx.matchers)
-    ctx.matchers.setdefault('F801', match_f801)
     desc = {k: v for k, v in (body.get('case') or {}).items() if k not in ('requests', 'outcome', 'sleeps', 'request')}
     env = Env()
     try:
